@@ -541,7 +541,7 @@ def rule_loop_exit(ctx):
     ctx.check(ok, pj.fq, "draining is the only early exit before the poll", "pop_next_job returns None for another reason before consulting the database", "if self.draining: return None", where=ctx.where_of(pj))
 
 
-RESOLVING = {"set_state", "mark_completed", "_reset_step_to_pending", "_finalize_failed_run"}
+RESOLVING = {"set_state", "mark_completed", "_reset_step_to_pending", "_finalize_failed_run", "_restart_if_declared_again"}
 
 
 def kwarg_of(call, name):
@@ -813,7 +813,7 @@ MUTANTS = [
         "            # Get the next job and start it as a task if there is such a job.\n", "            if len(self.running_tasks) == 0 and len(self.done_tasks) == 0:\n                return\n", 1) if "# Get the next job and start it" in seg else None), ("R-C10-6",)),
     Mutant("defer-no-count", "step.py", in_function("Step.mark_completed", replace_once("                defer_count = self._increment_defer_count()\n", "                defer_count = self.get_defer_count()\n")), ("R-C10-7",)),
     Mutant("reset-count-on-failed", "step.py", replace_once("CREATE TRIGGER IF NOT EXISTS step_reset_defer_count AFTER UPDATE OF state ON step\nWHEN NEW.state = {StepState.SUCCEEDED.value}", "CREATE TRIGGER IF NOT EXISTS step_reset_defer_count AFTER UPDATE OF state ON step\nWHEN NEW.state IN ({StepState.SUCCEEDED.value}, {StepState.PENDING.value})"), ("R-C10-7",)),
-    Mutant("has-hash-not-seeded", "step.py", in_function("Step.initialize_row", lambda seg: seg.replace('            "(SELECT EXISTS(SELECT 1 FROM step_hash WHERE node = :node)))",', '            "0)",') if "SELECT EXISTS(SELECT 1 FROM step_hash" in seg else None), ("R-C10-1",)),
+    Mutant("has-hash-not-seeded", "step.py", in_function("Step.initialize_row", lambda seg: seg.replace('            "(SELECT EXISTS(SELECT 1 FROM step_hash WHERE node = :node)), :holding)",', '            "0, :holding)",') if "SELECT EXISTS(SELECT 1 FROM step_hash" in seg else None), ("R-C10-1",)),
 ]
 
 VARIANTS = [
